@@ -17,7 +17,7 @@ Code areas involved: {', '.join(p['anchors']['files'])}
 
 YOUR TASK: produce TWO independent alternative source changes (call them m1 and m2; different sites / different mechanisms; each is a small patch to non-test .go files, typically 1-15 changed lines) such that each change, applied alone to the pristine worktree:
  (1) still compiles (go build ./... and go vet-free `go test -vet=off -count=1 -run '^$' ./...` in the module),
- (2) ALL existing tests of the affected module still pass: `go test -vet=off -count=1 ./...` in that module directory (this can take a few minutes for the root module; run it with a generous timeout),
+ (2) ALL existing tests of the affected module still pass: `go test -vet=off -count=1 ./...` in that module directory (for the root module this takes 5-15 minutes because other jobs share the machine: while iterating run only the packages you touched, run the full module suite ONCE per change at the end with `-p 4` and a 40-minute timeout),
  (3) breaks the property above, and
  (4) needs something specific to manifest - a particular interleaving, a crash or fault at a particular point, a multi-step sequence of operations, an unusual input, or two cooperating sites that each look fine alone - NOT something ordinary use would expose at once.
 Make them realistic: the kind of mistake a developer plausibly introduces while refactoring, optimising or adding a feature (an off-by-one in a guard, a dropped release / reset / copy of one field, a check moved after the action, a wrong variable of the same type, a missing case, state shared that should be per-instance, an error swallowed, ...). Do not merely re-expose a bug that already exists in the pristine code: your demonstration must PASS on the pristine worktree.
